@@ -69,8 +69,6 @@ Fixpoint ins_onset (x : note) (l : list note) : list note :=
   end.
 Definition sort_onset (l : list note) : list note := fold_right ins_onset [] l.
 
-Definition oid_in (x : Z) (l : list note) : bool := existsb (fun n => oid n =? x) l.
-
 Definition min_dur (o : Z) (l : list note) : option Z :=
   fold_left (fun acc n => if negb (grace n) && (onset n =? o)
                           then match acc with None => Some (dur n) | Some d => Some (Z.min d (dur n)) end
@@ -88,16 +86,20 @@ Definition move_all (vmax : Z) (cands : list note) (st : rstate) : rstate :=
                let v := find_free vmax spans (onset n) (nend n) in
                (spans ++ [(onset n, nend n, v)], vadd v n extr) end) cands st.
 
-(* remove_voice_polyphony_single: returns the notes kept in the voice and the new state *)
+(* pass 1: a non-grace note longer than the shortest non-grace note at its onset;
+   pass 2: a note that exceeds the next onset of the voice (onsets taken before the pass) *)
+Definition viol1 (notes : list note) (n : note) : bool :=
+  negb (grace n) && match min_dur (onset n) notes with Some d => dur n >? d | None => false end.
+Definition viol2 (notes : list note) (n : note) : bool :=
+  match next_onset (onset n) notes with Some o2 => onset n + dur n >? o2 | None => false end.
+
+(* remove_voice_polyphony_single: returns the notes kept in the voice and the new state.
+   (notes.remove(n) of the code removes exactly the violating notes: notes are distinct objects) *)
 Definition rvp_single (vmax : Z) (notes : list note) (st : rstate) : list note * rstate :=
-  let c1 := sort_onset (filter (fun n => negb (grace n) &&
-              match min_dur (onset n) notes with Some d => dur n >? d | None => false end) notes) in
-  let st1 := move_all vmax c1 st in
-  let kept1 := filter (fun n => negb (oid_in (oid n) c1)) notes in
-  let c2 := sort_onset (filter (fun n =>
-              match next_onset (onset n) kept1 with Some o2 => onset n + dur n >? o2 | None => false end) kept1) in
-  let st2 := move_all vmax c2 st1 in
-  (filter (fun n => negb (oid_in (oid n) c2)) kept1, st2).
+  let st1 := move_all vmax (sort_onset (filter (viol1 notes) notes)) st in
+  let kept1 := filter (fun n => negb (viol1 notes n)) notes in
+  let st2 := move_all vmax (sort_onset (filter (viol2 kept1) kept1)) st1 in
+  (filter (fun n => negb (viol2 kept1 n)) kept1, st2).
 
 Fixpoint rvp_loop (vmax : Z) (byv : list (Z * list note)) (st : rstate)
   : list (Z * list note) * rstate :=
@@ -176,30 +178,33 @@ Fixpoint span_le (t : Z) (Os : list other) : list other * list other :=
   | o :: r => if o_onset o <=? t then let (a, b) := span_le t r in (o :: a, b) else ([], Os)
   end.
 
-Fixpoint emit_others (Os : list other) (last_t : Z) : list elem * Z :=
+(* both return the stream, the position after its last element, and the furthest
+   position reached (max over the elements of onset + duration) *)
+Fixpoint emit_others (Os : list other) (last_t mx : Z) : list elem * Z * Z :=
   match Os with
-  | [] => ([], last_t)
-  | o :: r => let (es, t') := emit_others r (o_onset o) in
-              (fb (o_onset o) last_t ++ oelem o :: es, t')
+  | [] => ([], last_t, mx)
+  | o :: r => match emit_others r (o_onset o) (Z.max mx (o_onset o)) with
+              | (es, t', mx') => (fb (o_onset o) last_t ++ oelem o :: es, t', mx')
+              end
   end.
 
-(* returns the stream and the position after its last element *)
-Fixpoint mwv (v : Z) (N : list (note * bool)) (Os : list other) (last_t lno : Z) : list elem * Z :=
+Fixpoint mwv (v : Z) (N : list (note * bool)) (Os : list other) (last_t lno mx : Z)
+  : list elem * Z * Z :=
   match N with
-  | [] => emit_others Os last_t
+  | [] => emit_others Os last_t mx
   | (n, ch) :: r =>
       let (Os1, Os2) := span_le (onset n) Os in
-      let (es1, t1) := emit_others Os1 last_t in
-      let t1' := if ch then lno else t1 in
-      let (es2, t2) := mwv v r Os2 (onset n + ndur n) (onset n) in
-      (es1 ++ fb (onset n) t1' ++ ENote (oid n) (ndur n) ch (grace n) v :: es2, t2)
+      match emit_others Os1 last_t mx with
+      | (es1, t1, mx1) =>
+          let t1' := if ch then lno else t1 in
+          match mwv v r Os2 (onset n + ndur n) (onset n) (Z.max mx1 (onset n + ndur n)) with
+          | (es2, t2, mx2) =>
+              (es1 ++ fb (onset n) t1' ++ ENote (oid n) (ndur n) ch (grace n) v :: es2, t2, mx2)
+          end
+      end
   end.
 
 (* ---------------------------------------------------------------- measure *)
-
-Definition max_end (N : list (note * bool)) (Os : list other) (mx : Z) : Z :=
-  fold_left (fun a o => Z.max a (o_onset o)) Os
-    (fold_left (fun a p => Z.max a (onset (fst p) + ndur (fst p))) N mx).
 
 Fixpoint lin_voices (first : bool) (vs : list (Z * list note)) (Os : list other) (pos mx : Z)
   : list elem * Z * Z :=
@@ -208,9 +213,11 @@ Fixpoint lin_voices (first : bool) (vs : list (Z * list note)) (Os : list other)
   | (v, l) :: r =>
       let N := tag_chords None (sort_notes l) in
       let Os' := if first then Os else [] in
-      let (es, p) := mwv v N Os' pos pos in
-      match lin_voices false r Os p (max_end N Os' mx) with
-      | (es', p', mx') => (es ++ es', p', mx')
+      match mwv v N Os' pos pos mx with
+      | (es, p, m) =>
+          match lin_voices false r Os p m with
+          | (es', p', m') => (es ++ es', p', m')
+          end
       end
   end.
 
